@@ -100,6 +100,14 @@ impl VM {
                 };
             }
             #[cfg(vbxq_aelys_lang_verif)]
+            if verif_on {
+                crate::verif::site(
+                    crate::verif_sites::SNAP_GRID,
+                    crate::verif_sites::on_grid(bytecode_ptr, verif_bl, ip) as u64,
+                    bytecode_ptr as u64,
+                );
+            }
+            #[cfg(vbxq_aelys_lang_verif)]
             verif_site!(crate::verif_sites::FETCH, ip, verif_bl);
 
             // Fetch instruction
